@@ -23,7 +23,7 @@ func NewPeriodWindow(t time.Time, size time.Duration) Period {
 // NewPeriodWindowWeek 创建一周长度的时间窗口，从周一零点开始至周日 23:59:59 结束
 func NewPeriodWindowWeek(t time.Time) Period {
 	var start = GetStartOfWeek(t, time.Monday)
-	end := start.Add(Week)
+	end := start.AddDate(0, 0, 7)
 	return Period{start, end}
 }
 
